@@ -74,6 +74,21 @@ def sweep_impl(rep, tier, seed):
                     gv = blk.dedisperse(dm, only_valid_samples=True)
                     rep.check(gv.data.shape == wantv.shape and np.array_equal(gv.data, wantv), "valid-samples variant != x[c,t0+j+delay_c]",
                               function="block.py::FilterbankBlock.dedisperse", input=inp, observed=gv.data.shape, required=wantv.shape)
+                    if dl.min() < 0:
+                        # negative delays (negative DM / rising band): a dedispersed block read starts before `start`
+                        st_ = -int(dl.min()) + 2
+                        ns = N - st_ - max(0, int(dl.max())) - 1
+                        if ns >= 4:
+                            rep.case(("dedisp_block_neg", fch1, nchans, tsamp, dm, st_, ns))
+                            try:
+                                db = fil.read_dedisp_block(st_, ns, dm)
+                                wantb = np.stack([X[c, st_ + dl[c]: st_ + dl[c] + ns] for c in range(nchans)])
+                                rep.check(db.data.shape == wantb.shape and np.array_equal(db.data, wantb) and db.dm == dm,
+                                          "read_dedisp_block != x[c, start+t+delay_c] over its declared length",
+                                          function="readers.py::FilReader.read_dedisp_block", input=dict(inp, start=st_, nsamps=ns))
+                            except Exception as exc:  # noqa: BLE001
+                                rep.fail(f"read_dedisp_block raised {type(exc).__name__}", function="readers.py::FilReader.read_dedisp_block",
+                                         input=dict(inp, start=st_, nsamps=ns), observed=str(exc)[:120])
                     if dl.min() >= 0:
                         md = int(dl.max())
                         ws = np.array([sum(X[c, t + dl[c]] for c in range(nchans)) for t in range(N - md)])
